@@ -394,6 +394,111 @@ def autosave_schedules(ctx):
     return cases
 
 
+# -- (ii'') background saves of LARGE values under a writer (no sync point: real concurrency) ----------------
+def stress_snapshots(ctx):
+    """Values too large for one quick copy (and for TLC): a list that a writer only ever LPUSHes a falling counter onto
+    (every state it ever had is a run n, n-1, ..., 0), a queue with RPUSH at one end and LPOP at the other (every state is
+    a run i..j), a sorted set and a hash grown in step.  While pipelined writers keep going, background saves are taken
+    one after the other; each dump is loaded by the real loader in a child process and the harness checks that every value
+    is one the key can have had at ONE instant (a run without gap or repetition, ...).  Recorded as chk events."""
+    import threading
+    from client import Client
+    import resp as R
+    srv = ctx.new_server(name='stress')
+    tr = ctx.new_trace('stress')
+    n0 = 150000 if ctx.quick else 1000000
+    saves = 5 if ctx.quick else 24
+    cl = Client(srv.port, timeout=30.0)
+    cl.call([b'FLUSHALL'])
+    for i in range(0, n0, 5000):       # L = n0-1 ... 0 (head = largest), Q = 0 ... n0-1
+        cl.send_raw(R.enc_cmd([b'LPUSH', b'L'] + [b'%d' % j for j in range(i, i + 5000)]) + R.enc_cmd([b'RPUSH', b'Q'] + [b'%d' % j for j in range(i, i + 5000)]))
+        cl.recv(30.0); cl.recv(30.0)
+    for i in range(0, 20000, 2000):
+        cl.call([b'ZADD', b'Z'] + [x for j in range(i, i + 2000) for x in (b'%d' % j, b'm%07d' % j)], 30.0)
+        cl.call([b'HSET', b'H'] + [x for j in range(i, i + 2000) for x in (b'f%07d' % j, b'%d' % j)], 30.0)
+    stop = threading.Event()
+    state = {'l': n0, 'qhi': n0, 'qlo': 0, 'z': 20000}
+
+    def writer_l():
+        w = Client(srv.port, timeout=30.0)
+        while not stop.is_set():
+            k = state['l']
+            w.send_raw(b''.join(R.enc_cmd([b'LPUSH', b'L', b'%d' % (k + j)]) for j in range(50)))
+            for _ in range(50):
+                if w.recv(30.0)[0] != 'int':
+                    return
+            state['l'] = k + 50
+        w.close()
+
+    def writer_q():
+        w = Client(srv.port, timeout=30.0)
+        while not stop.is_set():
+            hi = state['qhi']
+            w.send_raw(b''.join(R.enc_cmd([b'RPUSH', b'Q', b'%d' % (hi + j)]) + R.enc_cmd([b'LPOP', b'Q']) for j in range(25))
+                       + R.enc_cmd([b'ZADD', b'Z', b'%d' % state['z'], b'm%07d' % state['z']]) + R.enc_cmd([b'HSET', b'H', b'f%07d' % state['z'], b'%d' % state['z']]))
+            for _ in range(52):
+                if w.recv(30.0)[0] in ('closed', 'none'):
+                    return
+            state['qhi'] = hi + 25
+            state['qlo'] += 25
+            state['z'] += 1
+        w.close()
+    ths = [threading.Thread(target=writer_l), threading.Thread(target=writer_q)]
+    for t in ths:
+        t.start()
+    dump = os.path.join(srv.dir, 'dump.rdb')
+    cases = 0
+    try:
+        for i in range(saves):
+            before = dict(state)
+            r = cl.call([b'BGSAVE'], 30.0)
+            done = wait_bgsave(srv, 60.0)
+            after = dict(state)
+            copy = os.path.join(ctx.out, 'stress-%d.rdb' % i)
+            shutil.copy(dump, copy)
+            res = rdbload(copy, timeout=120)
+            why = ''
+            if not done or res.get('result') != 'ok':
+                why = 'bgsave %s, load %s %s' % (done, res.get('result'), str(res.get('error', res.get('status', '')))[:100])
+            else:
+                db = res['dbs'].get('0', {})
+                def val(name):
+                    e = db.get(name.encode().hex())
+                    return e[1] if e else None
+                L = [int(bytes.fromhex(x)) for x in (val('L') or [])]
+                Q = [int(bytes.fromhex(x)) for x in (val('Q') or [])]
+                if not L or L != list(range(L[0], -1, -1)):
+                    why = 'list L is not a run n..0: %d elements, head %s' % (len(L), L[:3])
+                elif not (before['l'] - 1 <= L[0] <= after['l'] + 50):
+                    why = 'list L head %d outside what was pushed during the save [%d, %d]' % (L[0], before['l'] - 1, after['l'] + 50)
+                elif not Q or Q != list(range(Q[0], Q[0] + len(Q))):
+                    why = 'queue Q is not a run i..j: %d elements, head %s' % (len(Q), Q[:3])
+                elif abs(len(Q) - n0) > 1:
+                    why = 'queue Q holds %d elements; it never held other than %d or %d' % (len(Q), n0, n0 + 1)
+                else:
+                    Z = val('Z') or {}
+                    H = val('H') or {}
+                    nz, nh = len(Z), len(H)
+                    if not (before['z'] <= nz <= after['z'] + 1 and before['z'] <= nh <= after['z'] + 1):
+                        why = 'sorted set / hash hold %d / %d entries, outside [%d, %d]' % (nz, nh, before['z'], after['z'] + 1)
+            tr.emit({'k': 'chk', 'name': 'snapshot_%d_of_large_values_under_writers_is_one_instant_per_key' % i, 'ok': 0 if why else 1, 'detail': why})
+            os.remove(copy)
+            cases += 1
+            if not srv.alive():
+                tr.emit({'k': 'crash', 'status': srv.exit_status()})
+                break
+    finally:
+        stop.set()
+        for t in ths:
+            t.join(timeout=30)
+        cl.close()
+    ctx.validate(tr, label='stress-snapshots')
+    srv.kill()
+    ctx.extra_cov['stress_snapshots'] = cases
+    ctx.extra_cov['stress_list_elements'] = n0
+    return cases
+
+
 # -- (iii) truncated and corrupted dumps -----------------------------------------------------------------
 def rdbload(path, timeout=20):
     try:
@@ -499,6 +604,7 @@ def run(ctx):
     n1 += nf
     n2 = bgsave_schedules(ctx)
     n2 += autosave_schedules(ctx)
+    n2 += stress_snapshots(ctx)
     n3 = corruption(ctx)
     ctx.extra_cov['distinct_cases'] = n1 + n2 + n3
     ctx.extra_cov['fault_points'] = n1
